@@ -38,7 +38,7 @@ def main():
                 print(f'MUTANT NOT APPLIED: {s.count(old)} occurrences of {old!r}')
                 return 3
             open(p, 'w').write(s.replace(old, new))
-        env = dict(os.environ, KNEEMON_SRC=os.path.join(tmp, 'src'))
+        env = dict(os.environ, KNEEMON_SRC=os.path.join(tmp, 'src'), KNEEMON_NO_EVIDENCE='1')
         rc_all = 0
         for prop in a.props.split(','):
             r = subprocess.run([os.path.join(HERE, 'check'), prop, a.tier], env=env, capture_output=True, text=True)
@@ -49,7 +49,6 @@ def main():
         return rc_all
     finally:
         shutil.rmtree(tmp, ignore_errors=True)
-        subprocess.run(['git', '-C', HERE, 'checkout', '--', 'evidence'], capture_output=True)
 
 
 if __name__ == '__main__':
